@@ -35,6 +35,8 @@ static void genCloud(Prng& r, int kind, long n, int height, std::vector<std::arr
     const double planeVal = r.unit();
     std::vector<std::array<double, 3>> few;
     for (int k = 0; k < 3; ++k) few.push_back({{r.unit(), r.unit(), r.unit()}});
+    const int cornerLevel = 1 + int(r.below(uint64_t(height > 1 ? height - 1 : 1)));
+    const bool cornerHigh = r.chance(0.3);
     // kind 8: complete sibling sets -- every one of the 8 children of a few cells of the level above the leaves is occupied
     std::vector<std::array<long, 3>> parents;
     if (kind == 8 && height >= 2) {
@@ -48,6 +50,10 @@ static void genCloud(Prng& r, int kind, long n, int height, std::vector<std::arr
         if (k == 7) k = int(r.below(7));
         if (k == 8 && parents.empty()) k = 0;
         switch (k) {
+            case 9: {   // confined to the cell of lowest (or highest) index of some level: index 0 / all-ones at every level above
+                for (int d = 0; d < 3; ++d) { const double v = r.unit() / double(1L << cornerLevel); u[size_t(d)] = cornerHigh ? 1.0 - v : v; }
+                break;
+            }
             case 8: {
                 const bool fill = i < long(parents.size()) * 8;
                 const auto& pa = parents[fill ? size_t(i / 8) : size_t(r.below(parents.size()))];
@@ -281,7 +287,8 @@ Scenario generate(const std::string& prop, uint64_t seed, const std::string& tie
     const double lo[3] = {0, 0, 0}, hi[3] = {1, 1, 1};
     int kind = int(r.below(8));
     if (tall) { static const int tk[] = {1, 3, 4, 5, 1, 4, 2, 0}; kind = tk[r.below(8)]; }
-    if (r.chance(prop == "C12" && numeric ? 0.5 : 0.08)) { kind = 8; if (n < 24) n += 24; }   // complete sibling sets (all 8 children of a parent present, possibly in one group)
+    if (r.chance(prop == "C12" && numeric ? 0.5 : 0.08)) { kind = 8; if (n < 24) n += 24; }
+    else if (r.chance(0.05)) kind = 9;   // everything in the lowest- or highest-index cell of some level   // complete sibling sets (all 8 children of a parent present, possibly in one group)
     if (!sc.isTsm()) {
         genCloud(r, kind, n, sc.height, sc.src, lo, hi);
     } else {
@@ -305,7 +312,7 @@ Scenario generate(const std::string& prop, uint64_t seed, const std::string& tie
                 for (int d = 0; d < 3; ++d) sc.src[who][size_t(d)] = r.unit();
             }
         }
-        else genCloud(r, mode == 5 ? 4 : int(r.below(8)), mode == 5 && r.chance(0.5) ? 1 : nt, sc.height, sc.tgt, tLo, tHi);
+        else genCloud(r, mode == 5 ? 4 : (r.chance(0.06) ? 9 : int(r.below(8))), mode == 5 && r.chance(0.5) ? 1 : nt, sc.height, sc.tgt, tLo, tHi);
         if (r.chance(0.04)) { if (r.chance(0.5)) sc.src.clear(); else sc.tgt.clear(); }               // one side without any particle
     }
     toBox(sc, sc.src);
@@ -365,9 +372,34 @@ Scenario generate(const std::string& prop, uint64_t seed, const std::string& tie
     }
     // move / rebuild / (query) / execute histories: C13's workload, and a share of C02's and C15's (an executor that is reused
     // after a rebuild, lookups before and after a rebuild)
-    const bool rebuildHistory = !topSequence && (prop == "C13" || ((prop == "C02" || prop == "C15") && !numeric
+    const bool rebuildHistory = !topSequence && (prop == "C13" || ((prop == "C02" || prop == "C15" || prop == "C09") && !numeric
                                   && (sc.executor == "seq" || sc.executor == "omp" || sc.executor == "seqtsm" || sc.executor == "omptsm") && r.chance(0.15)));
     if (topSequence) {
+        // a share of the periodic sequences runs on a REBUILT tree: everything moved (into the lowest-index cell of a level, into one
+        // leaf, or anywhere), rebuild, then the four calls -- the top-tree executor reads the upper levels that rebuild() re-created
+        if ((prop == "C02" || prop == "C15") && !numeric && r.chance(0.2)
+            && (sc.executor == "seq" || sc.executor == "omp" || sc.executor == "seqtsm" || sc.executor == "omptsm")) {
+            HistOp mv; mv.op = "move";
+            const int km = int(r.below(3));
+            const int lvl = 1 + int(r.below(uint64_t(sc.height - 1)));
+            const long cells = 1L << (sc.height - 1);
+            const std::array<double, 3> leafAt{{double(r.below(uint64_t(cells))), double(r.below(uint64_t(cells))), double(r.below(uint64_t(cells)))}};
+            for (int t = 0; t < (sc.isTsm() ? 2 : 1); ++t) {
+                const auto& cur = t == 0 ? sc.src : sc.tgt;
+                for (size_t i = 0; i < cur.size(); ++i) {
+                    MoveRec m; m.tree = t; m.index = long(i);
+                    for (int d = 0; d < 3; ++d) {
+                        const double u = km == 0 ? r.unit() / double(1L << lvl) : (km == 1 ? (leafAt[size_t(d)] + r.unit()) / double(cells) : r.unit());
+                        const double corner = sc.centre[size_t(d)] + sc.width[size_t(d)] * (-1.0 / 2.0);
+                        m.pos[size_t(d)] = clampToBox(corner + std::min(1.0, std::max(0.0, u)) * sc.width[size_t(d)], corner, sc.width[size_t(d)]);
+                    }
+                    mv.moves.push_back(m);
+                }
+            }
+            HistOp rb; rb.op = "rebuild";
+            sc.history.insert(sc.history.begin(), rb);
+            sc.history.insert(sc.history.begin(), mv);
+        }
     } else if (!rebuildHistory && (prop == "C03" || prop == "C02" || prop == "C15" || prop == "C09")) {
         const int hk = int(r.below(10));
         if (hk < 6) sc.history.push_back(full);
@@ -405,7 +437,8 @@ Scenario generate(const std::string& prop, uint64_t seed, const std::string& tie
         const long cells = 1L << (sc.height - 1);
         for (int c = 0; c < cycles; ++c) {
             HistOp mv; mv.op = "move";
-            const int kindMv = int(r.below(7));
+            const int kindMv = int(r.below(8));
+            const int mvCornerLevel = 1 + int(r.below(uint64_t(sc.height > 1 ? sc.height - 1 : 1)));
             for (int t = 0; t < (sc.isTsm() ? 2 : 1); ++t) {
                 if (cur[t].empty()) continue;
                 const std::array<double, 3> gather{{r.unit(), r.unit(), r.unit()}};
@@ -429,6 +462,7 @@ Scenario generate(const std::string& prop, uint64_t seed, const std::string& tie
                             break;
                         }
                         case 4: if (!r.chance(0.5)) { moved = false; break; } for (int d = 0; d < 3; ++d) u[size_t(d)] = double(r.below(uint64_t(cells + 1))) / double(cells); break;  // onto faces
+                        case 7: for (int d = 0; d < 3; ++d) u[size_t(d)] = r.unit() / double(1L << mvCornerLevel); break;                                             // everything into the lowest-index cell of a level
                         case 5: moved = false; break;                                                                                                                        // rebuild without moving
                         default: if (i != 0) { moved = false; break; } for (int d = 0; d < 3; ++d) u[size_t(d)] = r.unit(); break;                                          // a single particle
                     }
